@@ -358,7 +358,7 @@ def text_fresh(chk, fb, RID="R12.5"):
     def fld(pl, names):
         return any(pr.get("k") == "field" and pr.get("owner") == OWNER and pr.get("name") in names for pr in (pl or {}).get("proj", []))
 
-    def events(b, refreshers):
+    def events(b, refreshers, stale_fns=()):
         tr = {}
         for bi in mir.normal_blocks(b):
             ev = []
@@ -378,13 +378,15 @@ def text_fresh(chk, fb, RID="R12.5"):
                 cp = mir.callee_path(t) or ""
                 if cp in refreshers:
                     ev.append("F")
+                elif cp in stale_fns and cp != b["path"] and any("deep::DeepEx<" in ((a.get("place") or {}).get("ty") or "") for a in t.get("args", [])):
+                    ev.append("S")
                 elif fld(t.get("dest"), STRUCT):
                     ev.append("S")
             tr[bi] = ev
         return tr
 
-    def stale_returns(b, refreshers):
-        tr = events(b, refreshers)
+    def stale_returns(b, refreshers, stale_fns=()):
+        tr = events(b, refreshers, stale_fns)
         IN = {bi: False for bi in tr}
         OUT = {}
         changed = True
@@ -402,39 +404,45 @@ def text_fresh(chk, fb, RID="R12.5"):
         touched = any("S" in v for v in tr.values())
         refreshes = any("F" in v for v in tr.values())
         return touched, refreshes, [bi for bi in tr if b["blocks"][bi]["term"]["k"] == "return" and OUT.get(bi)]
-    # refreshers: fn(&mut DeepEx, ..) that write the text (or call a refresher) and never return stale
+    cg = CallGraph(fb)
+
+    def own(p):
+        return re.sub(r"(::\{closure#\d+\})+$", "", p)
+    # fixpoint: a call that hands a DeepEx mutably to a function which may return it stale is itself a structural mutation
+    stale_fns = set()
     refreshers = set()
-    while True:
-        new = set()
+    for _ in range(8):
+        new_stale = set()
+        new_ref = set()
         for p, b in fb.bodies.items():
-            if p in refreshers or b["arg_count"] < 1 or not (b["locals"][1]["ty"].startswith("&mut") and "deep::DeepEx<" in b["locals"][1]["ty"]):
-                continue
-            touched, refreshes, stale = stale_returns(b, refreshers)
-            if refreshes and not stale:
-                new.add(p)
-        if not new:
+            touched, refreshes, stale = stale_returns(b, refreshers, stale_fns)
+            if touched and stale and own(p).rsplit("::", 1)[-1] not in STALE_OK:
+                new_stale.add(p)
+            if refreshes and not stale and b["arg_count"] >= 1 and b["locals"][1]["ty"].startswith("&mut") and "deep::DeepEx<" in b["locals"][1]["ty"]:
+                new_ref.add(p)
+        if new_stale == stale_fns and new_ref == refreshers:
             break
-        refreshers |= new
+        stale_fns, refreshers = new_stale, new_ref
     if not refreshers:
         chk.violation(RID, "anchor", "no function that re-derives the cached text of a DeepEx found")
         return
-    cg = CallGraph(fb)
     n = 0
     for p, b in sorted(fb.bodies.items()):
-        touched, refreshes, stale = stale_returns(b, refreshers)
+        touched, refreshes, stale = stale_returns(b, refreshers, stale_fns)
         if not touched:
             continue
         n += 1
-        name = re.sub(r"(::\{closure#\d+\})+$", "", p).rsplit("::", 1)[-1]
+        name = own(p).rsplit("::", 1)[-1]
         if not stale:
             chk.ok(RID, "fresh:%s" % name, "text re-derived on every path", loc(b["span"]))
-        elif name in STALE_OK:
-            if name == "lift_nodes":
-                callers = {re.sub(r"(::\{closure#\d+\})+$", "", c) for c in cg.callers_of(p)} - {p}      # it recurses into nested expressions
-                if not callers <= refreshers:
-                    chk.violation(RID, "stale-caller:%s" % name, "%s leaves the text behind the structure and is called from %s, which does not re-derive the text" % (name, sorted(callers - refreshers)), loc(b["span"]))
-                    continue
+            continue
+        callers = {own(c) for c in cg.callers_of(p)} - {own(p)}
+        outside = sorted(c for c in callers if not c.startswith("expression::deep::") and not c.startswith("<expression::deep::"))
+        if name in STALE_OK:
             chk.ok(RID, "exception:%s" % name, STALE_OK[name], loc(b["span"]))
+        elif callers and not outside and "{closure" not in p and not b.get("public"):
+            # a private helper of the module: the mutation is attributed to the call in its callers, which are checked themselves
+            chk.ok(RID, "helper:%s" % name, "leaves the text to its callers (%s), which are checked with this call counted as a mutation" % ", ".join(sorted(c.rsplit("::", 1)[-1] for c in callers))[:160], loc(b["span"]))
         else:
             bi = stale[0]
             chk.violation(RID, "stale:%s" % name, "%s changes the structure of a deep expression and can return without re-deriving its cached text: unparse() / Display / serialisation then print an expression that differs from the one that is evaluated" % p,
